@@ -170,6 +170,9 @@ func builtinArraySplice(call FunctionCall) Value {
 
 	start := valueToRangeIndex(call.Argument(0), length, false)
 	deleteCount := length - start
+	if len(call.ArgumentList) == 0 {
+		deleteCount = 0
+	}
 	if arg, ok := call.getArgument(1); ok {
 		deleteCount = valueToRangeIndex(arg, length-start, true)
 	}
